@@ -261,16 +261,19 @@ def run_server(calls, cuts, order_prefix, eof=True, garbage=None, truncate=None,
             last = c
         pieces.append(stream[last:])
         pieces = [p for p in pieces if p]
+        from stepup.core.rpc import SocketRPCServer
+
         reader = asyncio.StreamReader(loop=env.loop)
         writer = Writer()
-        conn = RPCServerConnection(handler, reader, writer)
-        serve = env.loop.create_task(conn.serve())
+        # connections are accepted the way the real server accepts them (everything but the
+        # socket itself), so that state the server shares between its connections is in play
+        server = SocketRPCServer(handler, "unused-socket-path")
+        serve = env.loop.create_task(server._serve_connection(reader, writer))
         other = None
         if two:
             reader2 = asyncio.StreamReader(loop=env.loop)
             writer2 = Writer()
-            conn2 = RPCServerConnection(handler, reader2, writer2)
-            serve2 = env.loop.create_task(conn2.serve())
+            serve2 = env.loop.create_task(server._serve_connection(reader2, writer2))
             reader2.feed_data(encode_call(1, "echo", 99) + encode_call(2, "slow", "other"))
             other = (reader2, writer2, serve2)
         env.settle()
@@ -387,7 +390,22 @@ def judge_server(acc, key, calls, res, complete_upto, what, fault):
         of = {}
         for cid, body in o["frames"]:
             of.setdefault(cid, []).append(body)
-        if len(of.get(1, [])) != 1 or len(of.get(2, [])) != 1 or not o["done"] or o["exc"] is not None:
+        vals = {}
+        for cid in (1, 2):
+            if len(of.get(cid, [])) == 1 and of[cid][0] is not None:
+                try:
+                    vals[cid] = pickle.loads(of[cid][0])
+                except Exception as exc:  # noqa: BLE001
+                    vals[cid] = exc
+        released = any(c == ("release", "other") for c in res["choices"])
+        wrong = vals.get(1) != ("echo", 99) or (2 in vals and vals[2] != ("slow", "other"))
+        early = 2 in of and not released
+        if wrong or early:
+            acc.violation(f"C16|server|other-connection-reply|{key}",
+                          {"why": "a call on another, healthy connection got a wrong or premature reply",
+                           "replies": {k: repr(v)[:120] for k, v in vals.items()}, "other_gate_released": released, **what}, None)
+        if len(of.get(1, [])) != 1 or len(of.get(2, [])) > 1 or (released and len(of.get(2, [])) != 1) \
+                or not o["done"] or o["exc"] is not None:
             acc.violation(f"C16|server|other-connection-disturbed|{key}",
                           {"frames": {k: len(v) for k, v in of.items()}, "done": o["done"], "exc": repr(o["exc"]), **what}, None)
 
